@@ -512,10 +512,10 @@ SCHED = st.fixed_dictionaries({"W": st.integers(1, 4), "B": st.integers(1, 5), "
 
 FACETS = [_leaf_facet(n) for n in SCALABLE] + [
     Facet("compositions", check, strategy=lambda tier: _wrap(scal_tspec(2)),
-          budget={"quick": 800, "thorough": 12000}, shards={"quick": 6, "thorough": 12},
+          budget={"quick": 2400, "thorough": 12000}, shards={"quick": 6, "thorough": 12},
           min_nontrivial={"quick": 150, "thorough": 2000}, case_timeout=120),
     Facet("pil-compositions", check, strategy=lambda tier: _wrap(pil_composition()).map(lambda s: dict(s, fam="pipeline")),
-          budget={"quick": 200, "thorough": 2500}, shards={"quick": 4, "thorough": 8},
+          budget={"quick": 600, "thorough": 2500}, shards={"quick": 4, "thorough": 8},
           min_nontrivial={"quick": 50, "thorough": 500}, case_timeout=300),
     Facet("scheduled-simulated-workers", guarded("scheduled", check_scheduled_sim), strategy=lambda tier: SCHED,
           budget={"quick": 600, "thorough": 8000}, shards={"quick": 2, "thorough": 6}, min_nontrivial={"quick": 150, "thorough": 1500}),
